@@ -4,6 +4,7 @@ import Driver.C02
 import Driver.C04
 import Driver.C05
 import Driver.C10
+import Driver.C15
 /-
   Line-protocol driver: one operation per input line, one canonical output line per operation.
   Imports `Model/` only (no Mathlib, no proofs) so that it links as a `lean_exe`.
@@ -18,7 +19,8 @@ structure DState where
   rpc : Amqp.Rpc.S := {}
 
 def handlers : List Handler := [
-  Driver.C04.handle
+  Driver.C04.handle,
+  Driver.C15.handle
 ]
 
 def step (st : DState) (line : String) : DState × String :=
